@@ -11,6 +11,11 @@ import VotelibProofs.Lemmas.PermBase
 import VotelibProofs.Lemmas.PermSimple
 import VotelibProofs.Lemmas.PermQuota
 import VotelibProofs.Lemmas.RenameQuota
+import VotelibProofs.Lemmas.PermRules
+import VotelibProofs.Lemmas.PermSymmetric
+import VotelibProofs.Lemmas.PermCondorcetRules
+import VotelibProofs.Lemmas.PermApproval
+import VotelibProofs.Lemmas.PermScore
 namespace VL.C10
 open VL
 
@@ -152,6 +157,205 @@ theorem largest_remainder_rename (σ : Cand → Cand) (hσ : Function.Injective 
     QD.largestRemainder cfg (renVotes σ v) n (Perm.renI σ prev) (Perm.renI σ maxS) =
       (QD.largestRemainder cfg v n prev maxS).map (Perm.renSel σ) :=
   Perm.largestRemainder_ren σ hσ cfg hpol v hnd n prev maxS hprev
+
+/-! ## the converters (models of C13) and the rules `PreConverted(converter, Plurality())`
+  A profile is the LIST of (ballot, weight) pairs of the votes dict in insertion order.  C13 proves that every converter is the
+  weighted sum of its per-ballot images; permutation invariance is commutativity of that sum.  A frozenset (approval ballot,
+  shared rank) is kept canonical by the models, so renaming re-canonicalises it (`Perm.renSet`, `Perm.renAProfile`, `Perm.renRProfile`). -/
+
+/-- **ApprovalToSimpleVotes: ballot-order independence** — same exception, or the same totals (the dict up to order) -/
+theorem approval_to_simple_perm (split : Bool) {p₁ p₂ : Convert.AProfile} (h : p₁.Perm p₂) :
+    ExceptEquiv List.Perm (Convert.approvalToSimple split p₁) (Convert.approvalToSimple split p₂) :=
+  Perm.approvalToSimple_perm split h
+
+/-- **ApprovalToSimpleVotes: renaming equivariance** (injective renaming, duplicate-free ballots) -/
+theorem approval_to_simple_rename (σ : Cand → Cand) (hσ : Function.Injective σ) (split : Bool) (p : Convert.AProfile)
+    (hwf : ∀ bw ∈ p, bw.1.Nodup) :
+    ExceptEquiv List.Perm (Convert.approvalToSimple split (Perm.renAProfile σ p))
+      ((Convert.approvalToSimple split p).map (renVotes σ)) :=
+  Perm.approvalToSimple_ren σ hσ split p hwf
+
+/-- **RankedToPositionalVotes: ballot-order independence** for every rank scorer accepting the ballots -/
+theorem ranked_to_positional_perm (sc : Convert.Scorer) {p₁ p₂ : Convert.RProfile} (h : p₁.Perm p₂)
+    (hs : C13.ScorerOK sc (Convert.allRankedCandidates p₁).length p₁) :
+    ∃ d₁ d₂, Convert.rankedToPositional sc p₁ = .ok d₁ ∧ Convert.rankedToPositional sc p₂ = .ok d₂ ∧ d₁.Perm d₂ :=
+  Perm.rankedToPositional_perm sc h hs
+
+/-- **RankedToPositionalVotes: renaming equivariance** -/
+theorem ranked_to_positional_rename (σ : Cand → Cand) (hσ : Function.Injective σ) (sc : Convert.Scorer) (p : Convert.RProfile)
+    (hwf : Perm.RankedWF p) (hs : C13.ScorerOK sc (Convert.allRankedCandidates p).length p) :
+    ∃ d' d, Convert.rankedToPositional sc (Perm.renRProfile σ p) = .ok d' ∧ Convert.rankedToPositional sc p = .ok d ∧
+      d'.Perm (renVotes σ d) :=
+  Perm.rankedToPositional_ren σ hσ sc p hwf hs
+
+/-- **RankedToCondorcetVotes: ballot-order independence** (both modes): the same pairwise counts, the dict up to order -/
+theorem ranked_to_condorcet_perm (ab : Bool) {p₁ p₂ : Convert.RProfile} (h : p₁.Perm p₂) :
+    (Convert.rankedToCondorcet ab p₁).Perm (Convert.rankedToCondorcet ab p₂) := Perm.rankedToCondorcet_perm ab h
+
+/-- **Positional rules (Borda, Dowdall, geometric, modified Borda, fixed top): ballot-order independence** -/
+theorem positional_rule_perm (sc : Convert.Scorer) {p₁ p₂ : Convert.RProfile} (h : p₁.Perm p₂)
+    (hs : C13.ScorerOK sc (Convert.allRankedCandidates p₁).length p₁) (n : Nat) :
+    ExceptEquiv SlotsEquiv (PreConv.positionalRule sc p₁ n) (PreConv.positionalRule sc p₂ n) :=
+  Perm.positionalRule_perm sc h hs n
+
+/-- **Positional rules: renaming equivariance** — the outcome for the renamed profile is the renamed outcome, up to the
+    order of equally placed winners and of tie members -/
+theorem positional_rule_rename (σ : Cand → Cand) (hσ : Function.Injective σ) (sc : Convert.Scorer) (p : Convert.RProfile)
+    (hwf : Perm.RankedWF p) (hs : C13.ScorerOK sc (Convert.allRankedCandidates p).length p) (n : Nat) :
+    ExceptEquiv SlotsEquiv (PreConv.positionalRule sc (Perm.renRProfile σ p) n)
+      ((PreConv.positionalRule sc p n).map (List.map (renSlot σ))) :=
+  Perm.positionalRule_ren σ hσ sc p hwf hs n
+
+/-- **Approval voting (AV, SAV): ballot-order independence** -/
+theorem approval_rule_perm (split : Bool) {p₁ p₂ : Convert.AProfile} (h : p₁.Perm p₂) (n : Nat) :
+    ExceptEquiv SlotsEquiv (PreConv.approvalRule split p₁ n) (PreConv.approvalRule split p₂ n) :=
+  Perm.approvalRule_perm split h n
+
+/-- **Approval voting (AV, SAV): renaming equivariance** -/
+theorem approval_rule_rename (σ : Cand → Cand) (hσ : Function.Injective σ) (split : Bool) (p : Convert.AProfile)
+    (hwf : ∀ bw ∈ p, bw.1.Nodup) (n : Nat) :
+    ExceptEquiv SlotsEquiv (PreConv.approvalRule split (Perm.renAProfile σ p) n)
+      ((PreConv.approvalRule split p n).map (List.map (renSlot σ))) :=
+  Perm.approvalRule_ren σ hσ split p hwf n
+
+/-- non-vacuity: a Borda profile with a shared rank meets the hypotheses -/
+example : Perm.RankedWF [([.one 0, .shared [1, 2]], 2), ([.one 2, .one 1], 1)] ∧
+    C13.ScorerOK (.borda 1) (Convert.allRankedCandidates [([.one 0, .shared [1, 2]], (2 : Rat)), ([.one 2, .one 1], 1)]).length
+      [([.one 0, .shared [1, 2]], 2), ([.one 2, .one 1], 1)] := by
+  constructor <;> decide +kernel
+
+/-! ## the Condorcet family (models of C05 / C06)
+  On a pairwise dictionary `v` (distinct keys) in two insertion orders, and — composed with the converter — on a ranked profile in
+  two ballot orders (`PreConv.condorcetRule ev p n = ev (rankedToCondorcet true p) n`, the family table's
+  `PreConverted(RankedToCondorcetVotes(), evaluator)`). -/
+
+/-- **Copeland (first and second order) on a pairwise dict: insertion-order independence** -/
+theorem copeland_perm {v₁ v₂ : Condorcet.Pairwise} (h : v₁.Perm v₂) (hn : (v₁.map (·.1)).Nodup) (so : Bool) (n : Nat) :
+    SlotsEquiv (Condorcet.copeland so v₁ n) (Condorcet.copeland so v₂ n) := Perm.copeland_perm h hn so n
+
+/-- **Minimax (all three pair scorers) on a pairwise dict: insertion-order independence** -/
+theorem minimax_perm {v₁ v₂ : Condorcet.Pairwise} (h : v₁.Perm v₂) (hn : (v₁.map (·.1)).Nodup) (sc : Condorcet.Scorer) (n : Nat) :
+    SlotsEquiv (Condorcet.minimax sc v₁ n) (Condorcet.minimax sc v₂ n) := Perm.minimax_perm h hn sc n
+
+/-- **Schulze on a well-formed pairwise dict: insertion-order independence** -/
+theorem schulze_perm {v₁ v₂ : Condorcet.Pairwise} (h : v₁.Perm v₂) (hwf : Condorcet.WF v₁) (n : Nat) :
+    SlotsEquiv (Condorcet.schulze v₁ n) (Condorcet.schulze v₂ n) := Perm.schulze_perm h hwf n
+
+/-- **Condorcet winner: insertion-order independence** — the very same answer -/
+theorem condorcet_winner_perm {v₁ v₂ : Condorcet.Pairwise} (h : v₁.Perm v₂) (hn : (v₁.map (·.1)).Nodup) :
+    Condorcet.condorcetWinner v₁ = Condorcet.condorcetWinner v₂ := Perm.condorcetWinner_perm h hn
+
+/-- **Smith set: insertion-order independence** — the same set -/
+theorem smith_set_perm {v₁ v₂ : Condorcet.Pairwise} (h : v₁.Perm v₂) (hn : (v₁.map (·.1)).Nodup) :
+    (Condorcet.smithSet v₁).Perm (Condorcet.smithSet v₂) := Perm.smithSet_perm h hn
+
+/-- **Schwartz set: insertion-order independence** — the same set -/
+theorem schwartz_set_perm {v₁ v₂ : Condorcet.Pairwise} (h : v₁.Perm v₂) (hn : (v₁.map (·.1)).Nodup) :
+    (Condorcet.schwartzSet v₁).Perm (Condorcet.schwartzSet v₂) := Perm.schwartzSet_perm h hn
+
+/-- **Copeland on a ranked profile: ballot-order independence** -/
+theorem copeland_rule_perm (so : Bool) {p₁ p₂ : Convert.RProfile} (h : p₁.Perm p₂) (n : Nat) :
+    SlotsEquiv (PreConv.condorcetRule (Condorcet.copeland so) p₁ n) (PreConv.condorcetRule (Condorcet.copeland so) p₂ n) :=
+  Perm.copelandRule_perm so h n
+
+/-- **Minimax on a ranked profile: ballot-order independence** -/
+theorem minimax_rule_perm (sc : Condorcet.Scorer) {p₁ p₂ : Convert.RProfile} (h : p₁.Perm p₂) (n : Nat) :
+    SlotsEquiv (PreConv.condorcetRule (Condorcet.minimax sc) p₁ n) (PreConv.condorcetRule (Condorcet.minimax sc) p₂ n) :=
+  Perm.minimaxRule_perm sc h n
+
+/-- **Schulze on a ranked profile: ballot-order independence** (duplicate-free ballots, non-negative weights) -/
+theorem schulze_rule_perm {p₁ p₂ : Convert.RProfile} (h : p₁.Perm p₂) (hb : ∀ bw ∈ p₁, (Convert.ballotCands bw.1).Nodup)
+    (hw : ∀ bw ∈ p₁, 0 ≤ bw.2) (n : Nat) :
+    SlotsEquiv (PreConv.condorcetRule Condorcet.schulze p₁ n) (PreConv.condorcetRule Condorcet.schulze p₂ n) :=
+  Perm.schulzeRule_perm h hb hw n
+
+/-- **Condorcet winner of a ranked profile: ballot-order independence** -/
+theorem condorcet_winner_rule_perm {p₁ p₂ : Convert.RProfile} (h : p₁.Perm p₂) :
+    PreConv.condorcetSeatless Condorcet.condorcetWinner p₁ = PreConv.condorcetSeatless Condorcet.condorcetWinner p₂ :=
+  Perm.condorcetWinnerRule_perm h
+
+/-- **Smith set of a ranked profile: ballot-order independence** -/
+theorem smith_rule_perm {p₁ p₂ : Convert.RProfile} (h : p₁.Perm p₂) :
+    (PreConv.condorcetSeatless Condorcet.smithSet p₁).Perm (PreConv.condorcetSeatless Condorcet.smithSet p₂) :=
+  Perm.smithRule_perm h
+
+/-- **Schwartz set of a ranked profile: ballot-order independence** -/
+theorem schwartz_rule_perm {p₁ p₂ : Convert.RProfile} (h : p₁.Perm p₂) :
+    (PreConv.condorcetSeatless Condorcet.schwartzSet p₁).Perm (PreConv.condorcetSeatless Condorcet.schwartzSet p₂) :=
+  Perm.schwartzRule_perm h
+
+/-! ## proportional approval voting and score voting (models of C12)
+  `Appr.WF p`: every approval ballot is duplicate-free (a frozenset). -/
+
+/-- **SPAV: ballot-order independence** — the very same outcome (elected list in election order, or the refusal) -/
+theorem spav_perm {p₁ p₂ : Appr.Profile} (h : p₁.Perm p₂) (hwf : Appr.WF p₁) (n : Nat) : Appr.spav p₁ n = Appr.spav p₂ n :=
+  Perm.spav_perm h hwf n
+
+/-- **PAV: ballot-order independence** — the very same outcome -/
+theorem pav_perm {p₁ p₂ : Appr.Profile} (h : p₁.Perm p₂) (hwf : Appr.WF p₁) (n : Nat) : Appr.pav p₁ n = Appr.pav p₂ n :=
+  Perm.pav_perm h hwf n
+
+/-- **Score aggregation (`ScoreToSimpleVotes`): ballot-order independence**, every configuration -/
+theorem score_convert_perm (cfg : Score.Cfg) {p₁ p₂ : Score.SProfile} (h : p₁.Perm p₂) :
+    ExceptEquiv List.Perm (Score.convert cfg p₁) (Score.convert cfg p₂) := Perm.convert_perm cfg h
+
+/-- **Score voting (mean / sum / median, unscored value, min count, truncation): ballot-order independence** -/
+theorem score_voting_perm (cfg : Score.Cfg) {p₁ p₂ : Score.SProfile} (h : p₁.Perm p₂) (n : Nat) :
+    ExceptEquiv SlotsEquiv (Score.scoreVoting cfg p₁ n) (Score.scoreVoting cfg p₂ n) := Perm.scoreVoting_perm cfg h n
+
+/-! ## the symmetric-candidates corollary
+  A renaming σ that maps the election onto a reordering of itself is a symmetry of the election (e.g. the transposition of two
+  candidates in perfectly symmetric positions).  Order independence + renaming equivariance make the outcome σ-invariant:
+  `c` and `σ c` are both elected or both not (`Perm.Elected`), both in the reported tie or both not (`Perm.InTie`), hold the
+  same number of seats. -/
+
+/-- **Symmetric candidates under a positional rule** -/
+theorem positional_symmetric_candidates (σ : Cand → Cand) (hσ : Function.Injective σ) (sc : Convert.Scorer) (p : Convert.RProfile)
+    (hwf : Perm.RankedWF p) (hs : C13.ScorerOK sc (Convert.allRankedCandidates p).length p)
+    (hsym : (Perm.renRProfile σ p).Perm p) (n : Nat) (r : List Slot) (hr : PreConv.positionalRule sc p n = .ok r) (c : Cand) :
+    (Perm.Elected (σ c) r ↔ Perm.Elected c r) ∧ (Perm.InTie (σ c) r ↔ Perm.InTie c r) :=
+  Perm.positionalRule_symmetric σ hσ sc p hwf hs hsym n r hr c
+
+/-- **Symmetric candidates under approval voting (AV, SAV)** -/
+theorem approval_symmetric_candidates (σ : Cand → Cand) (hσ : Function.Injective σ) (split : Bool) (p : Convert.AProfile)
+    (hwf : ∀ bw ∈ p, bw.1.Nodup) (hsym : (Perm.renAProfile σ p).Perm p) (n : Nat) (r : List Slot)
+    (hr : PreConv.approvalRule split p n = .ok r) (c : Cand) :
+    (Perm.Elected (σ c) r ↔ Perm.Elected c r) ∧ (Perm.InTie (σ c) r ↔ Perm.InTie c r) :=
+  Perm.approvalRule_symmetric σ hσ split p hwf hsym n r hr c
+
+/-- **Symmetric parties under LargestRemainder** hold the same number of seats -/
+theorem largest_remainder_symmetric_parties (σ : Cand → Cand) (hσ : Function.Injective σ) (cfg : QD.Cfg)
+    (hpol : cfg.onOver ≠ .subtract) (v : Votes) (hnd : (v.map (·.1)).Nodup) (hsym : (renVotes σ v).Perm v) (n : Nat) (r : QD.Sel)
+    (hr : QD.largestRemainder cfg v n [] [] = .ok r) (c : Cand) :
+    Perm.look r (.cand (σ c)) = Perm.look r (.cand c) :=
+  Perm.largestRemainder_symmetric σ hσ cfg hpol v hnd hsym n r hr c
+
+/-- **Symmetric parties under a highest-averages method** hold the same number of seats -/
+theorem ha_symmetric_parties (σ : Cand → Cand) (hσ : Function.Injective σ) (cfg : HACfg) (hprev : cfg.prev = [])
+    (hcaps : cfg.caps = []) (hn : (keys cfg.votes).Nodup) (hsym : cfg.votes.Perm (renVotes σ cfg.votes)) (c : Cand) :
+    haSeats cfg (σ c) = haSeats cfg c :=
+  Perm.ha_symmetric σ hσ cfg hprev hcaps hn hsym c
+
+/-- the transposition of candidates 0 and 1 -/
+def swap01 : Cand → Cand := fun c => if c = 0 then 1 else if c = 1 then 0 else c
+
+theorem swap01_injective : Function.Injective swap01 := by
+  have inv : ∀ x : Nat, swap01 (swap01 x) = x := by
+    intro x
+    unfold swap01
+    by_cases h0 : x = 0
+    · simp [h0]
+    · by_cases h1 : x = 1
+      · simp [h1]
+      · simp [h0, h1]
+  intro a b h
+  rw [← inv a, ← inv b, h]
+
+/-- non-vacuity: a mirrored pair of ballots is symmetric in candidates 0 and 1 -/
+example : (Perm.renRProfile swap01 [([.one 0, .one 1, .one 2], 1), ([.one 1, .one 0, .one 2], 1)]).Perm
+    [([.one 0, .one 1, .one 2], 1), ([.one 1, .one 0, .one 2], 1)] := by decide +kernel
+
+example : (renVotes swap01 [(0, 5), (1, 5), (2, 3)]).Perm [(0, 5), (1, 5), (2, 3)] := by decide +kernel
 
 /-- non-vacuity -/
 example : SlotsEquiv (getNBest [(1,5),(2,3),(3,3)] 2) (getNBest [(3,3),(1,5),(2,3)] 2) :=
